@@ -57,15 +57,17 @@ Theorem slogdet_field alg (e : sop (R:=R) R) : valid R R fdom fdet alg e ->
 Proof. intros Hv. exact (slogdet_det_all R R fdom fdom_laws fdet DL alg e Hv). Qed.
 
 (* ---------- |sign| = 1, |mag| = mag ---------- *)
-Definition U (r : R * R) : Prop := a (fst r) = r1 /\ a (snd r) = snd r.
+Definition U (r : R * R) : Prop := a (fst r) = r1 /\ a (snd r) = snd r /\ snd r <> r0.
+Lemma mul_nz x y : x <> r0 -> y <> r0 -> x * y <> r0.
+Proof. intros Hx Hy H. apply Hy. transitivity (rinv x * (x * y)); [field; exact Hx|]. rewrite H. ring. Qed.
 Lemma a_rinv x : x <> r0 -> a (rinv x) = rinv (a x).
 Proof. intros Hx. apply inv_unique; [|apply (a_nz AL); exact Hx]. rewrite <- (a_mul AL), rinv_r, (a_1 AL) by exact Hx. reflexivity. Qed.
 Lemma U_phase c : c <> r0 -> U (phase fdom c, llog fdom (vabs fdom c)).
-Proof. intros Hc. unfold U, phase. cbn [fdom vone vmul vinv vof vabs llog fst snd]. split; [|apply (a_idem AL)].
+Proof. intros Hc. unfold U, phase. cbn [fdom vone vmul vinv vof vabs llog fst snd]. split; [|split; [apply (a_idem AL)|apply (a_nz AL); exact Hc]].
   rewrite (a_mul AL), a_rinv, (a_idem AL) by (apply (a_nz AL); exact Hc). apply rinv_r. apply (a_nz AL). exact Hc. Qed.
-Lemma U_one : U (r1, r1). Proof. split; apply (a_1 AL). Qed.
+Lemma U_one : U (r1, r1). Proof. split; [apply (a_1 AL)|split; [apply (a_1 AL)|apply r1_nz]]. Qed.
 Lemma U_mul r1' r2 : U r1' -> U r2 -> U (fst r1' * fst r2, snd r1' * snd r2).
-Proof. intros [A1 A2] [B1 B2]. split; cbn [fst snd]; rewrite (a_mul AL); [rewrite A1, B1; ring|rewrite A2, B2; reflexivity]. Qed.
+Proof. intros (A1 & A2 & A3) (B1 & B2 & B3). split; [|split]; cbn [fst snd]; [rewrite (a_mul AL), A1, B1; ring|rewrite (a_mul AL), A2, B2; reflexivity|apply mul_nz; assumption]. Qed.
 Lemma U_pow k r : U r -> U (rpow (fst r) k, rpow (snd r) k).
 Proof. intros Hr. induction k; cbn [rpow]; [apply U_one|]. apply (U_mul r _ Hr IHk). Qed.
 Lemma U_scale k r : U r -> U (scale_res fdom k r).
@@ -85,20 +87,21 @@ Lemma a_perm_sign n : forall p, a (perm_sign n p) = r1.
 Proof. induction n as [|n IH]; intros p; cbn [perm_sign]; [apply (a_1 AL)|].
   destruct (Nat.eqb _ n); [apply IH|rewrite a_opp; apply IH]. Qed.
 Lemma U_chol n ch : nzdiag n ch -> U (chol_rule fdom n ch).
-Proof. intros Hd. unfold chol_rule, tri_rule. destruct (U_diag n (fun i => ch i i) Hd) as [A1 A2].
-  split; cbn [fdom vmul vconj lscale fst snd].
+Proof. intros Hd. unfold chol_rule, tri_rule. destruct (U_diag n (fun i => ch i i) Hd) as (A1 & A2 & A3).
+  split; [|split]; cbn [fdom vmul vconj lscale fst snd].
   - rewrite (a_mul AL), (a_conj AL), A1. ring.
-  - cbn [rpow]. rewrite !(a_mul AL), A2, (a_1 AL). reflexivity. Qed.
+  - cbn [rpow]. rewrite !(a_mul AL), A2, (a_1 AL). reflexivity.
+  - cbn [rpow]. apply mul_nz; [exact A3|apply mul_nz; [exact A3|apply r1_nz]]. Qed.
 Lemma U_base alg n A b : base_ok R R fdom fdet alg n A b -> U (base_rule fdom all_fixed alg n b).
 Proof. unfold base_ok, base_rule. destruct (pick alg (b_psd b) n).
   - intros (_ & Hd & _). apply U_chol; exact Hd.
   - intros (_ & _ & _ & HL & HU & _). unfold lu_rule. apply U_comb. constructor; [|constructor; [|constructor; [|constructor]]].
-    + unfold perm_rule. cbn [perm_slogdet_ignores_parity all_fixed]. split; cbn [fdom vof lzero fst snd]; [apply a_perm_sign|apply (a_1 AL)].
+    + unfold perm_rule. cbn [perm_slogdet_ignores_parity all_fixed]. split; [|split]; cbn [fdom vof lzero fst snd]; [apply a_perm_sign|apply (a_1 AL)|apply r1_nz].
     + apply (U_diag n _ HL).
     + apply (U_diag n _ HU).
   - intros [E Hn]. cbn [fdom lexp vof] in E. unfold kry_rule. cbn [krylov_slogdet_abs_of_trace all_fixed fdom lph lre].
     assert (Ht : b_kt b <> r0) by (rewrite E; exact Hn).
-    split; cbn [fst snd]; [|apply (a_idem AL)].
+    split; [|split]; cbn [fst snd]; [|apply (a_idem AL)|apply (a_nz AL); exact Ht].
     rewrite (a_mul AL), a_rinv, (a_idem AL) by (apply (a_nz AL); exact Ht). apply rinv_r. apply (a_nz AL). exact Ht. Qed.
 Theorem slogdet_unit alg (e : sop (R:=R) R) : valid R R fdom fdet alg e -> U (slogdet fdom all_fixed alg e).
 Proof. induction e using (sop_ind2 (R:=R) R); intros Hv; inversion Hv; subst.
@@ -108,7 +111,7 @@ Proof. induction e using (sop_ind2 (R:=R) R); intros Hv; inversion Hv; subst.
   - apply U_one.
   - cbn [slogdet]. unfold scal_rule. cbn [scalar_slogdet_ignores_n all_fixed].
     apply (U_scale n (phase fdom c, llog fdom (vabs fdom c))). apply U_phase. assumption.
-  - cbn [slogdet]. unfold perm_rule. cbn [perm_slogdet_ignores_parity all_fixed]. split; cbn [fdom vof lzero fst snd]; [apply a_perm_sign|apply (a_1 AL)].
+  - cbn [slogdet]. unfold perm_rule. cbn [perm_slogdet_ignores_parity all_fixed]. split; [|split]; cbn [fdom vof lzero fst snd]; [apply a_perm_sign|apply (a_1 AL)|apply r1_nz].
   - cbn [slogdet].
     assert (Hsq : forallb (fun m => is_square (shape (to_op m))) ms = true).
     { apply forallb_forall. intros m Hm. match goal with Hs : Forall (fun m => shape (to_op m) = _) ms |- _ => rewrite Forall_forall in Hs; rewrite (Hs m Hm) end.
